@@ -179,3 +179,5 @@ def run(ctx):
     from . import common_quote as Q
     m, binds, params, sets = Q.model(ctx)
     Q.rule_decode_set(ctx, "R9", m, params, sets)
+    # a stored url is the prefix of its own sub-urls only if the stems of a host extend the stems of its parent host
+    L.rule_model(ctx, "R10")
